@@ -30,13 +30,15 @@ Pairs(sl) == {p \in NonNil(sl) \X NonNil(sl) : p[1] # p[2]}
 SentinelPool == {<<"ID_ctxCanceled", "L_ctxCanceled">>, <<"ID_osErrNotExist", "L_osErrNotExist">>,
                  <<"ID_osErrExist", "L_osErrExist">>, <<"ID_osErrPermission", "L_osErrPermission">>,
                  <<"ID_ioEOF", "L_ioEOF">>}
-ErrnoPool == {"ENOENT", "EACCES", "EEXIST", "EINTR"}
+\* errno name and the literal token of its text (EACCES prints the same text as os.ErrPermission)
+ErrnoPool == {<<"ENOENT", "L_errno_ENOENT">>, <<"EACCES", "L_osErrPermission">>,
+              <<"EEXIST", "L_errno_EEXIST">>, <<"EINTR", "L_errno_EINTR">>}
 KeyPool == {<< <<"w1">> >>, << <<"w2">>, <<"w1">> >>}
 LinkPool == {<< <<"w1">>, <<"w2">> >>, << <<>>, <<"w1">> >>, << <<"w2">>, <<>> >>, << <<>>, <<>> >>}
 TagPool == {<< <<"w1">>, <<"w2">> >>, << <<"w2">>, <<"w1">>, <<"w1">>, <<"w3">> >>}
 CodePool == {<< <<"n404">> >>, << <<"n5">> >>}
-ULeafKinds == {"uPtrLeaf", "uValLeaf", "uRegLeaf"}
-UWrapKinds == {"uWrapU", "uWrapC", "uWrapUC", "uWrapFull", "uAnnotWrap"}
+ULeafKinds == {"uPtrLeaf", "uValLeaf", "uRegLeaf", "uMaybe"}
+UWrapKinds == {"uWrapU", "uWrapC", "uWrapUC", "uWrapFull", "uAnnotWrap", "uMaybe"}
 
 PartsPool(sl) ==
   {<<Part("lit", s, 0)>> : s \in Shapes}
@@ -46,6 +48,10 @@ PartsPool(sl) ==
 WPartsPool(sl) ==
   {<<Part("lit", s, 0), Part("lit", <<SEP>>, 0), Part("w", E, r)>> : s \in Shapes2, r \in NonNil(sl)}
   \cup {<<Part("w", E, r), Part("lit", <<SP>>, 0), Part("lit", s, 0)>> : s \in Shapes2, r \in NonNil(sl)}
+
+FamsIn(v) == {Fam(AllNodes(v)[i], <<>>) : i \in 1..Len(AllNodes(v))} \cap DecodableFam
+\* every proper subset of the decodable families occurring in the value
+KnownSets(v) == (SUBSET FamsIn(v)) \ {FamsIn(v)}
 
 StrLeafOps  == {"GoNew", "New", "PkgNew"}
 StrWrapOps  == {"Wrap", "WithMessage", "WithHint", "WithDetail", "WithDomain", "HandledWithMessage",
@@ -63,7 +69,7 @@ Cands(sl) ==
     {Step("Sentinel", d, E, <<p[2]>>, <<<<p[1]>>>>, E, 0, E) :
         d \in (IF on("Sentinel") THEN FirstFree(sl) ELSE {}), p \in SentinelPool},
     {Step("CtxDeadline", d, E, E, E, E, 0, E) : d \in (IF on("CtxDeadline") THEN FirstFree(sl) ELSE {})},
-    {Step("Errno", d, E, <<"L_errno_" \o n>>, <<<<n>>>>, E, 0, E) :
+    {Step("Errno", d, E, <<n[2]>>, <<<<n[1]>>>>, E, 0, E) :
         d \in (IF on("Errno") THEN FirstFree(sl) ELSE {}), n \in ErrnoPool},
     {Step("Unimplemented", d, E, s, l, E, 0, E) :
         d \in (IF on("Unimplemented") THEN FirstFree(sl) ELSE {}), s \in Shapes, l \in LinkPool},
@@ -73,6 +79,14 @@ Cands(sl) ==
         d \in (IF on("NewfW") THEN FirstFree(sl) ELSE {}), p \in WPartsPool(sl)},
     {Step("ULeaf", d, E, s, <<<<k>>>>, E, 0, E) :
         d \in (IF on("ULeaf") THEN FirstFree(sl) ELSE {}), s \in Shapes, k \in ULeafKinds},
+    \* leaves with their own Is method: value-comparing (says it is any error
+    \* whose text is the tag) and identity-comparing (the user sentinel)
+    {Step("ULeaf", d, E, s, <<<<"uIsLeaf">>, t>>, E, 0, E) :
+        d \in (IF on("UIs") THEN FirstFree(sl) ELSE {}), s \in Shapes, t \in Shapes},
+    {Step("ULeaf", d, E, s, <<<<"uIsIdLeaf">>>>, E, 0, E) :
+        d \in (IF on("UIs") THEN FirstFree(sl) ELSE {}), s \in Shapes},
+    {Step("Sentinel", d, E, <<"w900">>, <<<<"ID_user">>>>, E, 0, E) :
+        d \in (IF on("UIs") THEN FirstFree(sl) ELSE {})},
     \* wrappers, in place
     UNION {{Step(o, i, <<i>>, s, E, E, 0, E) :
                i \in (IF o \in ForeignWrap THEN NonNil(sl) ELSE Targets(sl)),
@@ -114,7 +128,10 @@ Cands(sl) ==
         i \in NonNil(sl), j \in FirstFree(sl)},
     {Step("GoWrap2", p[1], <<p[1], p[2]>>, s, E, E, 0, E) :
         p \in (IF on("GoWrap2") THEN Pairs(sl) ELSE {}), s \in {<<SP>>, <<SEP>>, <<NL>>}},
-    {Step("Hop", i, <<i>>, E, E, E, 0, <<"*">>) : i \in (IF on("Hop") THEN NonNil(sl) ELSE {})}
+    {Step("Hop", i, <<i>>, E, E, E, 0, <<"*">>) : i \in (IF on("Hop") THEN NonNil(sl) ELSE {})},
+    \* hop to a process that knows only a subset of the families occurring in the value
+    UNION {{Step("Hop", i, <<i>>, E, E, E, 0, SetToSeq(k)) : k \in KnownSets(sl[i])} :
+           i \in (IF on("HopU") THEN NonNil(sl) ELSE {})}
   }
 
 GInit == Init /\ hist = <<>>
@@ -144,7 +161,11 @@ SkelSeq(vs) == IF vs = <<>> THEN <<>> ELSE <<Skel(vs[1])>> \o SkelSeq(Tail(vs))
 \* shape and text at every node of the visible tree
 Skel(v) == [text |-> Text(v), n |-> Len(v.kids), kids |-> SkelSeq(v.kids)]
 
-Live == {i \in 1..NSlots : ~IsNil(slots[i])}
+\* a value held by a process that does not know all its types: some layer is
+\* opaque although this build has a decoder for its family
+HeldAtU(v) == \E i \in 1..Len(AllNodes(v)) :
+                 LET n == AllNodes(v)[i] IN n.ty \in OpaqueTy /\ n.o.fam \in DecodableFam
+Live == {i \in 1..NSlots : ~IsNil(slots[i]) /\ ~HeldAtU(slots[i])}
 H1(v) == Hop(v, {"*"}, reg, D)
 
 \* C01: shape and text survive a hop between knowing processes; no drift
@@ -157,7 +178,8 @@ InvC01 == \A i \in Live :
 \* C02: Is is invariant under transfer of e, for references in the pool
 InvC02 == \A i \in Live :
    LET v == slots[i] h1 == H1(v) rp == RefPool(slots) IN
-   \A j \in 1..Len(rp) : IsSpec(h1, rp[j], reg) = IsSpec(v, rp[j], reg)
+   \A j \in 1..Len(rp) : \/ IsSpec(h1, rp[j], reg) = IsSpec(v, rp[j], reg)
+                          \/ OnlyViaMethod(v, rp[j], reg)
 
 \* C08: the implementation decides the documented equivalence, never panics
 InvC08 == \A i \in Live :
@@ -174,7 +196,18 @@ InvC07 == \A i \in Live :
 \* C11: accessors survive a hop between knowing processes
 InvC11 == \A i \in Live : Acc(H1(slots[i])) = Acc(slots[i])
 
-DesignInv == InvC01 /\ InvC02 /\ InvC07 /\ InvC08 /\ InvC11
+\* C04: at a process knowing any subset of the families: same text and shape,
+\* re-encoding is the identity, and a later knowing process gets what it
+\* would have got directly
+InvC04 == \A i \in Live :
+   LET v == slots[i] w == Enc(v, reg, D) IN
+   \A k \in KnownSets(v) :
+      LET u == Dec(w, k, D) IN
+      /\ Skel(u) = Skel(v)
+      /\ Enc(u, reg, D) = w
+      /\ Dec(Enc(u, reg, D), {"*"}, D) = Dec(w, {"*"}, D)
+
+DesignInv == InvC01 /\ InvC02 /\ InvC04 /\ InvC07 /\ InvC08 /\ InvC11
 \* the same, on maximal behaviours only (simulation runs)
 DesignInvLeaf == Len(hist) = MaxD => DesignInv
 =============================================================================
